@@ -1,6 +1,7 @@
 (* Schema.v — schema() of every class, flat and contextual, and the SchemaPrintingContext
    (codegen-v2.ts:399-466, 507-515, 625-2072, 2308-2331; openapi-pp.ts). *)
 From Beff Require Export Model.Hash256Enc Model.Validate.
+From Beff Require Import Model.ShowRt.
 
 Inductive json :=
 | JNull | JBool (b : bool) | JNum (n : num) | JStr (s : string)
@@ -180,6 +181,34 @@ Definition typeof_cst (c : cst) : string :=
 
 Definition is_ref_node (r : rt) : option string := match strip_meta_top r with RRef n => Some n | _ => None end.
 
+(* ---------- getSchemaVariantRefs: one definition per variant ----------
+   A variant listed under several keys is stored once, under the label of its first key; two keys that would give the same component
+   name part get different labels ("a-b", "a_b 2").  The emitted module shares one object between the keys of one variant; the model
+   reads "the same object" as "the same tree". *)
+Definition same_rt (a b : rt) : bool := String.eqb (show_rt a) (show_rt b).
+Fixpoint fresh_label (fuel : nat) (key : string) (n : nat) (used : list string) : string :=
+  let label := match n with O => key | _ => key +++ " " +++ Z_to_string (Z.of_nat (S n)) end in
+  match fuel with
+  | O => label
+  | S f => if mem_str (sanitize_part label) used then fresh_label f key (S n) used else label
+  end.
+(* for every key: the label its definition is named after *)
+Definition variant_labels (smapping : list (string * rt)) : list (string * rt * string) :=
+  let step (acc : list (string * rt * string) * list string) (kv : string * rt) :=
+    let '(done, used) := acc in
+    match find (fun e => same_rt (snd (fst e)) (snd kv)) done with
+    | Some e => (done ++ [(fst kv, snd kv, snd e)], used)
+    | None =>
+        let label := fresh_label (List.length used) (fst kv) 0 used in
+        (done ++ [(fst kv, snd kv, label)], used ++ [sanitize_part label])
+    end in
+  fst (fold_left step smapping ([], [])).
+Fixpoint dedupe_first (l : list string) (seen : list string) : list string :=
+  match l with
+  | [] => []
+  | x :: l' => if mem_str x seen then dedupe_first l' seen else x :: dedupe_first l' (x :: seen)
+  end.
+
 Section Schema.
   Variable F : formats.       (* only the names matter here: no registered format carries a jsonSchemaFormat *)
   Variable env : renv.
@@ -262,7 +291,8 @@ Section Schema.
                 if has_definition c0 name || is_in_progress c0 name then Ok c0
                 else let tgt := match assoc name (overrides cf) with Some o => o | None => target end in   (* since dc3325d *)
                      do b <- sub (mark_in_progress c0 name) tgt; Ok (store_definition (snd b) name (fst b)) in
-              do refs <- smap (fun c0 kv =>
+              do refs <- smap (fun c0 (e : string * rt * string) =>
+                                 let kv := fst e in
                                  match is_ref_node (snd kv) with
                                  | Some name =>
                                      match assoc name env with
@@ -270,14 +300,14 @@ Section Schema.
                                      | None => Throw (EInternal "unknown named type")
                                      end
                                  | None =>
-                                     let syn := synthetic_ref_name disc (fst kv) uh in
+                                     let syn := synthetic_ref_name disc (snd e) uh in
                                      do c1 <- ensure c0 syn (snd kv); Ok ((fst kv, get_ref cf syn), c1)
-                                 end) c smapping;
+                                 end) c (variant_labels smapping);
               Ok (ann (JObj [("type", JStr "object");
                              ("discriminator", JObj [("propertyName", JStr disc);
                                                      ("mapping", JObj (fold_left (fun acc kr => jobj_set (fst kr) (JStr (snd kr)) acc)
                                                                                   (fst refs) []))]);
-                             ("oneOf", JArr (map (fun kr => JObj [("$ref", JStr (snd kr))]) (fst refs)))]), snd refs)
+                             ("oneOf", JArr (map (fun r0 => JObj [("$ref", JStr r0)]) (dedupe_first (map snd (fst refs)) [])))]), snd refs)
           end
       | ROptional t =>
           do p <- sub c t; Ok (JObj [("anyOf", JArr [fst p; JObj [("type", JStr "null")]])], snd p)
